@@ -15,6 +15,8 @@ label 0, False flags) and boundary draws in the random rounds; the live generato
 the original and the rebuilt simulation are compared as well.
 Tunables are also set to values that are a sibling class's default; every object is rebuilt a second time from the same
 dictionary, which must come out unchanged.
+Composite moves also hold near-identical members (equal in everything but one label, or - for systems of more than a
+thousand atoms - but labels away from both ends of the atom list).
 """
 from __future__ import annotations
 
@@ -42,11 +44,14 @@ ASSUMPTIONS = [
     "excluded: callables, context, composite_move_type, unique_labels, and the attributes documented as reset after each move",
     "JSON text is produced and parsed by ase.io.jsonio (the codec the restart observer uses)",
 ]
-REQUIRED = {"rebuilt_twice_from_one_dictionary": 300, "generator_states_compared": 50, "modules_imported_first": 20, "class_roundtrips": 300, "classes_discovered": 15, "driver_roundtrips": 50, "attributes_compared": 1000}
+REQUIRED = {"composites_with_near_identical_members": 100, "composites_with_members_over_1000_atoms": 50, "rebuilt_twice_from_one_dictionary": 300, "generator_states_compared": 50, "modules_imported_first": 20, "class_roundtrips": 300, "classes_discovered": 15, "driver_roundtrips": 50, "attributes_compared": 1000}
 SHARD_TIMEOUT = {"quick": 600, "thorough": 1800}
 
 EXCLUDE = {"context", "composite_move_type", "unique_labels", "check_move", "distribution", "to_displace_labels", "displaced_labels", "to_add_atoms", "to_delete_label", "exchange_atoms", "number_of_moved_particles", "strain_tensor"}
 NESTED = {"operation", "operations", "moves", "move", "criteria", "translation", "rotation"}
+
+
+COUNTS: dict[str, int] = {}
 
 
 def list_modules():
@@ -159,6 +164,37 @@ def factories(rng=None, boundary=False):
             return np.array([0, 0, 1, -1, 5])
         return rng.integers(-2, 6, int(rng.integers(1, 7)))
 
+    def big_labels():
+        """More than a thousand atoms: a frozen framework at both ends of the atom list, guests in between."""
+        n = 1200 if rng is None else int(rng.integers(1001, 2600))
+        lab = np.full(n, -1)
+        lab[300 : n - 300] = np.arange(n - 600) % 7 if rng is None else rng.integers(0, 7, n - 600)
+        return lab
+
+    def twin(m, big):
+        """A sibling that differs from m in nothing but its labels - for large systems only away from the ends of the
+        atom list, otherwise in one element (two species moved by otherwise identical moves)."""
+        import copy
+
+        if big:
+            m.set_labels(big_labels())
+        t = copy.deepcopy(m)
+        lab = np.array(m.labels, copy=True)
+        k = len(lab) // 2
+        lab[k] = lab[k] + 1 if lab[k] >= 0 else 0
+        t.set_labels(lab)
+        COUNTS["composites_with_near_identical_members"] = COUNTS.get("composites_with_near_identical_members", 0) + 1
+        if big:
+            COUNTS["composites_with_members_over_1000_atoms"] = COUNTS.get("composites_with_members_over_1000_atoms", 0) + 1
+        return t
+
+    def twins(parts):
+        """Sometimes (always in the two deterministic rounds) the first member gets a near-identical sibling next to it."""
+        if rng is not None and rng.random() > 0.4:
+            return parts
+        big = (not boundary) if rng is None else bool(rng.random() < 0.5)
+        return [parts[0], twin(parts[0], big), *parts[1:]]
+
     def dmove(op=None):
         m = DisplacementMove(labels(), op or od.Box(f(0.21, 0.01, 2)), apply_constraints=b(False))
         m.default_label = 0 if boundary else (i(3, -2, 9) if rng is None or rng.random() < 0.8 else 0)
@@ -182,7 +218,7 @@ def factories(rng=None, boundary=False):
         return m
 
     def cexch():
-        c = CompositeExchangeMove([emove(), emove()])
+        c = CompositeExchangeMove(twins([emove(), emove()]))
         c.bias_towards_insert = f(0.3, 0.05, 0.95, (0.0, 1.0))
         return c
 
@@ -202,8 +238,8 @@ def factories(rng=None, boundary=False):
         "ExchangeMove": emove,
         "CellMove": cmove,
         "HamiltonianDisplacementMove": hmove,
-        "CompositeMove": lambda: CompositeMove([dmove(), CompositeDisplacementMove([dmove(od.Sphere(0.4)), dmove()]), CompositeMove([cmove(), emove()])]),
-        "CompositeDisplacementMove": lambda: CompositeDisplacementMove([dmove(), dmove(od.Ball(0.11)), dmove(CompositeOperation([od.Ball(0.1), od.Box(0.2)]))]),
+        "CompositeMove": lambda: CompositeMove(twins([dmove(), CompositeDisplacementMove(twins([dmove(od.Sphere(0.4)), dmove()])), CompositeMove([cmove(), emove()])])),
+        "CompositeDisplacementMove": lambda: CompositeDisplacementMove(twins([dmove(), dmove(od.Ball(0.11)), dmove(CompositeOperation([od.Ball(0.1), od.Box(0.2)]))])),
         "CompositeExchangeMove": cexch,
         "CanonicalCriteria": qc.CanonicalCriteria,
         "IsobaricCriteria": qc.IsobaricCriteria,
@@ -490,6 +526,8 @@ def run(spec):
             roundtrip(rec, obj, cname)
             if rng is None:
                 rec.sample({"first_module": first, "class": cname, "category": cat, "compared": comparison_set(obj)}, cap=3)
+    for k_, v_ in COUNTS.items():
+        rec.count(k_, v_)
     for dname, cls in sorted(drivers.items()):
         check_driver(rec, dname, cls, first)
     return rec.out()
